@@ -4,5 +4,6 @@ CONSTANTS
   MaxStmts = 3
   MaxRw = 1
   Kinds = {"InsertWs", "InsertCmt", "RenameVar", "RenameFn", "RenameMixin", "SwapSep", "Hoist", "InsertDebug", "InsertWarn", "MoveToPartial"}
+  Unguarded = FALSE
 INVARIANTS InvPreserved InvShape Emit
 CHECK_DEADLOCK FALSE
